@@ -17,6 +17,13 @@ AFTER = {  # missed by the check as it stood -> result after the widening (who r
  "C15-m2": "caught after widening (mixed dtypes of dynamic and constant fields): C15 oracle VIOLATION (run by the fix sub-agent)",
  "C06-m1": os.environ.get("C06M1", "missed: filters of at least 49 taps on an odd-sided full torus are not generated yet"),
 }
+# re-runs of the property's quick check against the patched tree AFTER the widenings (tools/try_seeded4.sh again)
+RERUN = {}
+for f in glob.glob(RES + "/after-C??.txt"):
+    for line in open(f):
+        m = re.match(r"(C\d+)/(m\d): demo clean=\d+ mutated=\d+ \| tests: .*? \| check: (.*)", line.strip())
+        if m:
+            RERUN[f"{m.group(1)}-{m.group(2)}"] = m.group(3)
 for f in sorted(glob.glob(RES + "/C??.txt")):
     prop = os.path.basename(f)[:3]
     for line in open(f):
@@ -48,6 +55,8 @@ for f in sorted(glob.glob(RES + "/C??.txt")):
         }
         if key in AFTER:
             meta["confirmed"]["check_result_after_widening"] = AFTER[key]
+        if key in RERUN and key in AFTER:
+            meta["confirmed"]["check_rerun_after_widening_by_me"] = RERUN[key]
         meta["confirmed"]["check_result"] = meta["confirmed"].get("check_result_after_widening", initial)
         json.dump(meta, open(dst + "/meta.json", "w"), indent=1)
         print("kept", dst, "|", initial[:60], "|", tests[:40])
